@@ -83,7 +83,7 @@ fn enumerate<C: ZCol, D: Dr<C>, P: Recorder + DrawTarget<Color = C, Error = Faul
     let bb = d.bbox();
     // parent box: generous, but finite so that clear()/clipping behave normally
     let bx = rect(bb.top_left.x.saturating_sub(40), bb.top_left.y.saturating_sub(40), bb.size.width + 80, bb.size.height + 80);
-    let budget = (bx.size.width as u64) * (bx.size.height as u64) * 16 + 4096;
+    let budget = (bx.size.width as u64) * (bx.size.height as u64) * 16 + 4096 + desc.overlap_allowance();
     let target_kind = if P::NATIVE { "native" } else { "draw_iter-only" };
     let case = |k: u64| format!("{} via {}{} on {} parent box {:?}, failing call {}", desc.text(), stack_text(stack), conv, target_kind, egmon::target::rt(&bx), k);
     ctx.eval();
